@@ -26,7 +26,7 @@ PLAN = {
     "thorough": {"shards": 16, "shard_timeout": 3600, "case_timeout": 40, "grammars": 5000, "agree": 30000, "max_case_timeouts": 80},
 }
 THRESHOLDS = {
-    "quick": {"cases_declared_with_string_annotations": 40, "mapped:ge": 200, "mapped:sge": 200, "mapped:dsge": 200, "mapped:stack": 30, "refined_positions": 3000, "dependent_positions": 100, "agree_values": 2000, "repr:stack": 20, "repr:dsge": 50, "repr:ge": 50, "repr:sge": 50, "repr:tree": 100, "set:mh_kinds_seen": 8, "redeclared_grammars": 40},
+    "quick": {"refinements_declared_with_the_subscript_form": 30, "cases_declared_with_string_annotations": 40, "mapped:ge": 200, "mapped:sge": 200, "mapped:dsge": 200, "mapped:stack": 30, "refined_positions": 3000, "dependent_positions": 100, "agree_values": 2000, "repr:stack": 20, "repr:dsge": 50, "repr:ge": 50, "repr:sge": 50, "repr:tree": 100, "set:mh_kinds_seen": 8, "redeclared_grammars": 40},
     "thorough": {"refined_positions": 50000, "dependent_positions": 2000, "agree_values": 50000, "set:mh_kinds_seen": 9},
 }
 
@@ -57,6 +57,33 @@ def gen_cases(tier, seed):
         if i >= len(MH_BOUNDARY) * 2:  # random parameters around the boundaries
             mh = _random_mh(rng)
         yield {"kind": "agree", "mh": mh, "mode": "scripted" if i % 2 == 0 else "extreme", "seed": rng.randrange(10**6)}
+    yield from subscript_cases(rng)
+
+
+def subscript_cases(rng):
+    """The refinements' other documented spelling: `VarRange[["x", "y", "z"]]` (docs/source/metahandlers), `IntRange[9, 10]`
+    (the repository's tests), `IntList[a_1, .., a_n]` (its docstring). What is declared this way must be what the call
+    form declares."""
+    for mh in MH_BOUNDARY:
+        forms = ["args"] if mh[0] not in ("IntList", "FloatList", "VarRange") else ["args", "list"]
+        for form in forms:
+            yield {"kind": "agree", "mh": mh, "mode": "scripted", "form": form, "seed": rng.randrange(10**6)}
+
+
+def build_subscripted(desc, form):
+    from geneticengine.grammar.metahandlers import floats, ints, lists, strings, vars as mvars
+
+    name, *p = desc
+    cls = {"IntRange": ints.IntRange, "IntList": ints.IntList, "IntervalRange": ints.IntervalRange, "FloatRange": floats.FloatRange, "FloatList": floats.FloatList, "VarRange": mvars.VarRange, "ListSizeBetween": lists.ListSizeBetween, "LSBWLO": lists.ListSizeBetweenWithoutListOperations, "StringSizeBetween": strings.StringSizeBetween, "WeightedString": strings.WeightedStringHandler}[name]
+    if name == "WeightedString":
+        import numpy as np
+
+        return cls[np.array(p[0]), list(p[1])]
+    if name in ("IntList", "FloatList", "VarRange"):
+        if form == "list":
+            return cls[list(p[0])]  # X[[a, b, c]]
+        return cls.__class_getitem__(tuple(p[0]) if len(p[0]) != 1 else p[0][0])  # X[a, b, c]; X[a] passes the bare element
+    return cls.__class_getitem__(tuple(p))
 
 
 def _random_mh(rng):
@@ -172,7 +199,17 @@ def run_agree(case, rec):
     """validate() must accept everything generate() can produce; generate() stays inside the documented predicate."""
     desc = case["mh"]
     name = desc[0]
-    mh = grammars.build_mh(desc)
+    form = case.get("form")
+    if form:
+        rec.count("refinements_declared_with_the_subscript_form")
+        try:
+            mh = build_subscripted(desc, form)
+        except BaseException as e:  # noqa
+            rec.violation(f"subscript-form-raises:{name}:{type(e).__name__}", {"mh": desc, "form": "X[[...]]" if form == "list" else "X[...]", "error": core.short(e)})
+            return
+    else:
+        mh = grammars.build_mh(desc)
+    declared = refmodel.shadow_mh(desc)  # the predicate as DECLARED (the library's own object may have understood something else)
     base = {"int": int, "float": float, "str": str, "list": list[int], "tuple": tuple[int, int]}[BASE_OF[name]]
     rec.set_add("mh_kinds_seen", type(mh).__name__)
 
@@ -196,6 +233,9 @@ def run_agree(case, rec):
         why = refmodel.satisfies(v, None, mh, {})
         if why is not None:
             rec.violation(f"generated-outside-predicate:{name}", {"mh": desc, "value": core.short(v), "reason": why, "source": how})
+        why = refmodel.satisfies(v, None, declared, {})
+        if why is not None:
+            rec.violation(f"generated-outside-the-declared-predicate:{name}:{'subscript-form' if form else 'call-form'}", {"mh": desc, "value": core.short(v), "reason": why, "source": how})
         exp_t = {"int": int, "float": float, "str": str, "list": list, "tuple": tuple}[BASE_OF[name]]
         if not isinstance(v, exp_t) or (exp_t is int and type(v) is bool):
             rec.violation(f"generated-wrong-type:{name}", {"mh": desc, "value": core.short(v)})
